@@ -305,8 +305,9 @@ func postInline(fw *formatWriter, source []byte, cursor *commonmark.Cursor) {
 var titleEscaper = strings.NewReplacer(`\`, `\\`, `"`, `\"`, `&`, `\&`)
 
 // destinationEscaper escapes the characters of a normalized URI
-// that would end a link destination written without angle brackets.
-var destinationEscaper = strings.NewReplacer("(", `\(`, ")", `\)`)
+// that would end a link destination written without angle brackets
+// or start a character reference.
+var destinationEscaper = strings.NewReplacer("(", `\(`, ")", `\)`, "&", `\&`)
 
 func isShortcutLinkOrImage(inline *commonmark.Inline) bool {
 	if k := inline.Kind(); k != commonmark.LinkKind && k != commonmark.ImageKind || inline.ChildCount() == 0 {
